@@ -436,12 +436,22 @@ def run_source(params, known):
         data = oracle_protect(kind.split(':', 1)[1])
         right = 'right'
         (_w, delivered0, reasons0) = verify(data, right, False)
-        if not delivered0:
-            # the property speaks of blocks produced by the agent; a scope variant the
-            # verifier does not accept at all gives nothing to alter
+        if not delivered0 and kind.endswith(':omitted-param'):
+            # no AAD-scope parameter at all: which default applies is a matter of the security
+            # context's specification, the repository rejects such a block; nothing to alter
             return dict(name=name, evaluations=1, nontrivial_keys=[], violations=[], known=[], samples=[],
                         verdicts={'oracle-variant-not-accepted': 1}, report_keys=['verdicts'],
                         note='unmodified oracle-produced block rejected with reasons %r' % (reasons0,))
+        if not delivered0:
+            # The external AAD of this block was constructed independently (scope map with other
+            # blocks' metadata / data); the verifier builds something else from the same bundle.
+            # All five explicit scope variants verify on the repaired tree, so this is a regression of the
+            # AAD construction the property names as its mechanism.
+            v = Violation(PROP, 'integrity', 'independently-produced-block-rejected', dict(scope=kind.split(':', 1)[1]),
+                          '%s: unmodified bundle with an independently produced integrity block is rejected (reasons %r)' % (name, reasons0)).as_dict()
+            v['case'] = dict(source=kind, protected=data.hex(), altered=data.hex(), alteration='none', keymode='right', with_ca=False)
+            return dict(name=name, evaluations=1, nontrivial_keys=[], violations=[v], known=[], samples=[],
+                        verdicts={'oracle-variant-not-accepted': 1}, report_keys=['verdicts'])
     else:
         try:
             data = source_protect(kind, targets)
